@@ -709,7 +709,13 @@ func genWriteCase(r *Rand, tier string, o *Out) {
 		return
 	}
 	if r.Chance(30) {
-		// the writer takes the message in pieces (short writes without an error)
+		// the writer takes the message in pieces (short writes without an error); many small pieces of a long message
+		// cost the model's driver a quadratic amount of copying: long messages are written in pieces by the scripted
+		// cases of runC01, here the payload stays under 8 KiB
+		if len(p) > 8192 {
+			p = p[:8192]
+			h.Size = uint32(len(p))
+		}
 		k := 1 + r.Intn(9)
 		if r.Chance(30) {
 			k = 1 + r.Intn(28+len(p))
